@@ -374,3 +374,87 @@ let () =
       (try show_enum_result name (TextDeEnum.spec_enum_fields (decode_of enc) parse_f64 fops name vs doc)
        with Crash -> crash_tag)
                                      | _ -> "BADCASE")
+
+(* ------------------------------------------------------------------ [w_c02, wave 5] typed map keys, size hints
+   de.model.kmap <path> <enc> kmap(<key shape>,<value shape>) <hex> <aux>
+       the extracted TextDeKeys.kmap_root_tape (aux = canonical tape) / kmap_root_stream (aux = reader tokens)
+   de.model.hints <path> <enc> <shape> <hex> <aux>     tape paths only; shape = struct(76:hseq(S)) | struct(76:hmap(S)) | hmap(S)
+       the size hints TextDeKeys.seq_hints / map_hints of the access the field `v` (resp. the root) is visited with, and
+       the value TextDeTape.de gives for seq(S) / map(S); printed like fam_de.rs Value::Hint *)
+let split_kmap (s : string) : string * string =
+  let n = S.length s in
+  if not (starts_with "kmap(" s) || s.[n - 1] <> ')' then failwith "kmap shape";
+  let inner = S.sub s 5 (n - 6) in
+  let depth = ref 0 and cut = ref (-1) in
+  S.iteri (fun i c ->
+      if c = '(' then incr depth else if c = ')' then decr depth
+      else if c = ',' && !depth = 0 && !cut < 0 then cut := i) inner;
+  (S.sub inner 0 !cut, S.sub inner (!cut + 1) (S.length inner - !cut - 1))
+
+let show_amap (o : (SerdeShape.dval * SerdeShape.dval) list Bytes.outcome) : string =
+  match o with
+  | Bytes.Ok l -> let b = Stdlib.Buffer.create 256 in show_value b (SerdeShape.DAMap l); Stdlib.Buffer.contents b
+  | Bytes.Err e -> "ERR:" ^ class_name e
+  | _ -> crash_tag
+
+let hint_string (l : Datatypes.nat list) : string = S.concat "," (L.map (fun n -> string_of_int (int_of_nat n)) l)
+
+let () =
+  register "de.model.kmap" (function [path; enc; shape; _; aux] ->
+      let (ks, vs) = split_kmap shape in
+      let ksh = parse_shape ks and vsh = parse_shape vs in
+      let dec = decode_of enc in
+      (try
+         if starts_with "reader:" path || starts_with "freader:" path then
+           (match rtoks_of_string aux with
+            | None -> "BADAUX"
+            | Some r -> show_amap (TextDeKeys.kmap_root_stream dec parse_f64 fops ksh vsh r))
+         else show_amap (TextDeKeys.kmap_root_tape dec parse_f64 fops ksh vsh (Ttglue.tape_of_string aux))
+       with Crash -> crash_tag)
+                                    | _ -> "BADCASE");
+  register "de.model.hints" (function [_path; enc; shape; _; aux] ->
+      let dec = decode_of enc in
+      let t = Ttglue.tape_of_string aux in
+      let len = nat_of_int (L.length t) in
+      let fuel = nat_of_int (2 * L.length t + 64) in
+      let with_hints (h : Datatypes.nat list Bytes.outcome) (v : SerdeShape.dval Bytes.outcome) (wrap : string -> string) =
+        (match v, h with
+         | Bytes.Ok x, Bytes.Ok hs ->
+           let b = Stdlib.Buffer.create 256 in show_value b x;
+           wrap ("(hint " ^ hint_string hs ^ " " ^ Stdlib.Buffer.contents b ^ ")")
+         | Bytes.Ok _, _ -> crash_tag
+         | _, _ -> show_result v) in
+      (try
+         if starts_with "hmap(" shape then begin
+           let s = parse_shape (S.sub shape 5 (S.length shape - 6)) in
+           with_hints (TextDeKeys.map_hints t fuel (nat_of_int 0) len)
+             (TextDeTape.deser_tape dec parse_f64 fops (SerdeShape.ShMap s) t) (fun x -> x)
+         end else begin
+           let pre_s = "struct(76:hseq(" and pre_m = "struct(76:hmap(" in
+           let is_seq = starts_with pre_s shape in
+           if not (is_seq || starts_with pre_m shape) then failwith "hints shape";
+           let s = parse_shape (S.sub shape 15 (S.length shape - 17)) in
+           let rec find ti n =
+             if n = 0 then None else
+               match TextDeTape.fields_next t ti len with
+               | Bytes.Ok (Some (((key, op), vi), ti')) -> if key = key_v then Some (op, vi) else find ti' (n - 1)
+               | _ -> None in
+           match find (nat_of_int 0) (L.length t + 1) with
+           | None -> "NOFIELD"
+           | Some (op, vi) ->
+             let o = match op with Some o -> o | None -> TextTok.Equal in
+             let k = TextDeTape.KOpVal (o, vi) in
+             let wrap x = "(struct (76 " ^ x ^ "))" in
+             if is_seq then
+               (match TextDeTape.tape_visit dec parse_f64 t TextDeCommon.THSeq k with
+                | Bytes.Ok (TextDeTape.TVSeq (st, en)) ->
+                  with_hints (TextDeKeys.seq_hints t fuel st en) (TextDeTape.de dec parse_f64 fops t fuel (SerdeShape.ShSeq s) k) wrap
+                | _ -> show_result (TextDeTape.de dec parse_f64 fops t fuel (SerdeShape.ShSeq s) k))
+             else
+               (match TextDeTape.tape_visit dec parse_f64 t TextDeCommon.THMap k with
+                | Bytes.Ok (TextDeTape.TVMap (st, en)) ->
+                  with_hints (TextDeKeys.map_hints t fuel st en) (TextDeTape.de dec parse_f64 fops t fuel (SerdeShape.ShMap s) k) wrap
+                | _ -> show_result (TextDeTape.de dec parse_f64 fops t fuel (SerdeShape.ShMap s) k))
+         end
+       with Crash -> crash_tag)
+                                     | _ -> "BADCASE")
